@@ -28,6 +28,7 @@ use crate::cpc::compression_data::LENGTH_LIMITED_UNARY_ENCODING_TABLE65;
 use crate::cpc::determine_correct_offset;
 use crate::cpc::determine_flavor;
 use crate::cpc::pair_table::PairTable;
+use crate::error::Error;
 
 #[derive(Default)]
 pub(super) struct CompressedState {
@@ -355,12 +356,50 @@ pub(super) struct UncompressedState {
 }
 
 impl CompressedState {
-    pub fn uncompress(&self, lg_k: u8, num_coupons: u32) -> UncompressedState {
-        match determine_flavor(lg_k, num_coupons) {
-            Flavor::Empty => UncompressedState {
+    /// Rebuilds the window and the surprising-value table from the compressed streams.
+    ///
+    /// The streams come from untrusted bytes: every inconsistency is reported as an error.
+    pub fn uncompress(&self, lg_k: u8, num_coupons: u32) -> Result<UncompressedState, Error> {
+        let has_table = !self.table_data.is_empty();
+        let has_window = !self.window_data.is_empty();
+        let flavor = determine_flavor(lg_k, num_coupons);
+        // which streams an image of this flavor carries
+        let consistent = match flavor {
+            Flavor::Empty => !has_table && !has_window,
+            Flavor::Sparse | Flavor::Hybrid => has_table && !has_window,
+            Flavor::Pinned | Flavor::Sliding => has_window && (has_table || self.table_num_entries == 0),
+        };
+        if !consistent {
+            return Err(Error::deserial(format!(
+                "streams do not match the number of coupons: num_coupons {num_coupons}, lg_k {lg_k}, \
+                 table {has_table}, window {has_window}"
+            )));
+        }
+        // every pair takes at least two bits of its stream
+        if (self.table_num_entries as u64) > 16 * (self.table_data.len() as u64) {
+            return Err(Error::deserial(format!(
+                "number of surprising values {} exceeds what {} words can hold",
+                self.table_num_entries,
+                self.table_data.len()
+            )));
+        }
+        // a surprising-value table never grows beyond lg_size = min(26, lg_k + 5)
+        let max_lg_size = 26.min(lg_k as u32 + 5);
+        if 4 * (self.table_num_entries as u64) > 3 * (1u64 << max_lg_size) {
+            return Err(Error::deserial(format!(
+                "number of surprising values {} is too large for lg_k {lg_k}",
+                self.table_num_entries
+            )));
+        }
+        // every window byte takes at least one bit of its stream
+        if has_window && 32 * (self.window_data.len() as u64) < (1u64 << lg_k) {
+            return Err(Error::deserial("window stream is too short"));
+        }
+        match flavor {
+            Flavor::Empty => Ok(UncompressedState {
                 table: PairTable::new(2, lg_k + 6),
                 window: vec![],
-            },
+            }),
             Flavor::Sparse => self.uncompress_sparse_flavor(lg_k),
             Flavor::Hybrid => self.uncompress_hybrid_flavor(lg_k),
             Flavor::Pinned => self.uncompress_pinned_flavor(lg_k, num_coupons),
@@ -368,7 +407,7 @@ impl CompressedState {
         }
     }
 
-    fn uncompress_sparse_flavor(&self, lg_k: u8) -> UncompressedState {
+    fn uncompress_sparse_flavor(&self, lg_k: u8) -> Result<UncompressedState, Error> {
         debug_assert!(self.window_data.is_empty(), "window is not expected");
         debug_assert!(!self.table_data.is_empty(), "table is expected");
 
@@ -377,15 +416,15 @@ impl CompressedState {
             self.table_data_words,
             self.table_num_entries,
             lg_k,
-        );
+        )?;
 
-        UncompressedState {
+        Ok(UncompressedState {
             table: PairTable::from_slots(lg_k, self.table_num_entries, pairs),
             window: vec![],
-        }
+        })
     }
 
-    fn uncompress_hybrid_flavor(&self, lg_k: u8) -> UncompressedState {
+    fn uncompress_hybrid_flavor(&self, lg_k: u8) -> Result<UncompressedState, Error> {
         debug_assert!(self.window_data.is_empty(), "window is not expected");
         debug_assert!(!self.table_data.is_empty(), "table is expected");
 
@@ -394,7 +433,7 @@ impl CompressedState {
             self.table_data_words,
             self.table_num_entries,
             lg_k,
-        );
+        )?;
 
         // In the hybrid flavor, some of these pairs actually belong in the window, so we will
         // separate them out, moving the "true" pairs to the bottom of the array.
@@ -403,7 +442,6 @@ impl CompressedState {
         let mut next_true_pair = 0;
         for i in 0..self.table_num_entries {
             let row_col = pairs[i as usize];
-            assert_ne!(row_col, u32::MAX);
             let col = row_col & 63;
             if col < 8 {
                 let row = row_col >> 6;
@@ -414,13 +452,17 @@ impl CompressedState {
             }
         }
 
-        UncompressedState {
+        Ok(UncompressedState {
             table: PairTable::from_slots(lg_k, next_true_pair, pairs),
             window,
-        }
+        })
     }
 
-    fn uncompress_pinned_flavor(&self, lg_k: u8, num_coupons: u32) -> UncompressedState {
+    fn uncompress_pinned_flavor(
+        &self,
+        lg_k: u8,
+        num_coupons: u32,
+    ) -> Result<UncompressedState, Error> {
         debug_assert!(!self.window_data.is_empty(), "window is expected");
 
         let mut window = vec![];
@@ -430,7 +472,7 @@ impl CompressedState {
             &mut window,
             lg_k,
             num_coupons,
-        );
+        )?;
         let num_pairs = self.table_num_entries;
         let table = if num_pairs == 0 {
             PairTable::new(2, lg_k + 6)
@@ -441,23 +483,28 @@ impl CompressedState {
                 self.table_data_words,
                 num_pairs,
                 lg_k,
-            );
+            )?;
             // undo the compressor's 8-column shift
             for i in 0..num_pairs {
                 let i = i as usize;
-                assert!(
-                    (pairs[i] & 63) < 56,
-                    "pair column index is invalid: {}",
-                    pairs[i]
-                );
+                if (pairs[i] & 63) >= 56 {
+                    return Err(Error::deserial(format!(
+                        "pair column index is invalid: {}",
+                        pairs[i]
+                    )));
+                }
                 pairs[i] += 8;
             }
             PairTable::from_slots(lg_k, num_pairs, pairs)
         };
-        UncompressedState { table, window }
+        Ok(UncompressedState { table, window })
     }
 
-    fn uncompress_sliding_flavor(&self, lg_k: u8, num_coupons: u32) -> UncompressedState {
+    fn uncompress_sliding_flavor(
+        &self,
+        lg_k: u8,
+        num_coupons: u32,
+    ) -> Result<UncompressedState, Error> {
         debug_assert!(!self.window_data.is_empty(), "window is expected");
 
         let mut window = vec![];
@@ -467,7 +514,7 @@ impl CompressedState {
             &mut window,
             lg_k,
             num_coupons,
-        );
+        )?;
         let num_pairs = self.table_num_entries;
         let table = if num_pairs == 0 {
             PairTable::new(2, lg_k + 6)
@@ -478,17 +525,24 @@ impl CompressedState {
                 self.table_data_words,
                 num_pairs,
                 lg_k,
-            );
+            )?;
             let pseudo_phase = determine_pseudo_phase(lg_k, num_coupons);
             let permutation = &COLUMN_PERMUTATIONS_FOR_DECODING[pseudo_phase as usize];
             let offset = determine_correct_offset(lg_k, num_coupons);
-            assert!(offset <= 56, "offset is invalid: {offset}");
+            if offset > 56 {
+                return Err(Error::deserial(format!("offset is invalid: {offset}")));
+            }
 
             for i in 0..num_pairs {
                 let i = i as usize;
                 let row_col = pairs[i];
                 let row = row_col >> 6;
                 let mut col = (row_col & 63) as u8;
+                if col >= 56 {
+                    return Err(Error::deserial(format!(
+                        "pair column index is invalid: {row_col}"
+                    )));
+                }
                 // first undo the permutation
                 col = permutation[col as usize];
                 // then undo the rotation: old = (new + (offset+8)) mod 64
@@ -498,7 +552,7 @@ impl CompressedState {
 
             PairTable::from_slots(lg_k, num_pairs, pairs)
         };
-        UncompressedState { table, window }
+        Ok(UncompressedState { table, window })
     }
 }
 
@@ -507,12 +561,15 @@ fn uncompress_surprising_values(
     data_words: usize,
     num_pairs: u32,
     lg_k: u8,
-) -> Vec<u32> {
+) -> Result<Vec<u32>, Error> {
+    if num_pairs == 0 {
+        return Err(Error::deserial("a surprising-value stream without values"));
+    }
     let k = 1 << lg_k;
     let mut pairs = vec![0; num_pairs as usize];
     let num_base_bits = golomb_choose_number_of_base_bits(k + num_pairs, num_pairs as u64);
-    low_level_uncompress_pairs(&mut pairs, num_pairs, num_base_bits, data, data_words);
-    pairs
+    low_level_uncompress_pairs(&mut pairs, num_pairs, num_base_bits, data, data_words, k)?;
+    Ok(pairs)
 }
 
 fn uncompress_sliding_window(
@@ -521,7 +578,7 @@ fn uncompress_sliding_window(
     window: &mut Vec<u8>,
     lg_k: u8,
     num_coupons: u32,
-) {
+) -> Result<(), Error> {
     let k = 1 << lg_k;
     window.resize(k, 0);
     let pseudo_phase = determine_pseudo_phase(lg_k, num_coupons);
@@ -531,7 +588,7 @@ fn uncompress_sliding_window(
         data,
         data_words,
         &DECODING_TABLES_FOR_HIGH_ENTROPY_BYTE[pseudo_phase as usize],
-    );
+    )
 }
 
 fn low_level_uncompress_pairs(
@@ -540,7 +597,8 @@ fn low_level_uncompress_pairs(
     num_base_bits: u8,
     compressed_words: &[u32],
     num_compressed_words: usize,
-) {
+    k: u32,
+) -> Result<(), Error> {
     let mut word_index = 0;
     let mut bitbuf = 0;
     let mut bufbits = 0;
@@ -561,7 +619,7 @@ fn low_level_uncompress_pairs(
             compressed_words,
             &mut word_index,
             12,
-        );
+        )?;
         let peek12 = bitbuf & 0xfff;
         let lookup = LENGTH_LIMITED_UNARY_DECODING_TABLE65[peek12 as usize];
         let code_word_length = (lookup >> 8) as u8;
@@ -569,7 +627,8 @@ fn low_level_uncompress_pairs(
         bitbuf >>= code_word_length;
         bufbits -= code_word_length;
 
-        let golomb_hi = read_unary(compressed_words, &mut word_index, &mut bitbuf, &mut bufbits);
+        let golomb_hi =
+            read_unary(compressed_words, &mut word_index, &mut bitbuf, &mut bufbits)?;
         // ensure num_base_bits in the bit buffer
         maybe_fill_bitbuf(
             &mut bitbuf,
@@ -577,19 +636,28 @@ fn low_level_uncompress_pairs(
             compressed_words,
             &mut word_index,
             num_base_bits,
-        );
+        )?;
         let golomb_lo = bitbuf & golomb_lo_mask;
         bitbuf >>= num_base_bits;
         bufbits -= num_base_bits;
-        let y_delta = ((golomb_hi << num_base_bits) | golomb_lo) as u32;
+        let y_delta = (golomb_hi << num_base_bits) | golomb_lo;
 
         // Now that we have x_delta and y_delta, we can compute the pair's row and column
         if y_delta > 0 {
             predicted_col_index = 0;
         }
-        let row_index = predicted_row_index + y_delta;
+        let row_index = predicted_row_index as u64 + y_delta;
         let col_index = predicted_col_index + x_delta;
+        if row_index >= k as u64 || col_index > 63 {
+            return Err(Error::deserial(format!(
+                "decoded pair (row {row_index}, column {col_index}) is outside the {k} x 64 matrix"
+            )));
+        }
+        let row_index = row_index as u32;
         let row_col = (row_index << 6) | (col_index as u32);
+        if row_col == u32::MAX {
+            return Err(Error::deserial("decoded pair is the reserved value u32::MAX"));
+        }
         pairs[pair_index as usize] = row_col;
         predicted_row_index = row_index;
         predicted_col_index = col_index + 1;
@@ -599,6 +667,7 @@ fn low_level_uncompress_pairs(
         word_index <= num_compressed_words,
         "word_index: {word_index}, num_compressed_words: {num_compressed_words}",
     );
+    Ok(())
 }
 
 fn low_level_uncompress_bytes(
@@ -607,7 +676,7 @@ fn low_level_uncompress_bytes(
     compressed_words: &[u32],
     num_compressed_words: usize,
     decoding_table: &[u16],
-) {
+) -> Result<(), Error> {
     let mut word_index = 0;
     let mut bitbuf = 0;
     let mut bufbits = 0;
@@ -620,7 +689,7 @@ fn low_level_uncompress_bytes(
             compressed_words,
             &mut word_index,
             12,
-        );
+        )?;
         // These 12 bits will include an entire Huffman codeword.
         let peek12 = bitbuf & 0xfff;
         let lookup = decoding_table[peek12 as usize];
@@ -631,11 +700,12 @@ fn low_level_uncompress_bytes(
         bufbits -= code_word_length;
     }
 
-    // Buffer over-run should be impossible unless there is a bug.
+    // Buffer over-run is reported by maybe_fill_bitbuf.
     debug_assert!(
         word_index <= num_compressed_words,
         "word_index: {word_index}, num_compressed_words: {num_compressed_words}",
     );
+    Ok(())
 }
 
 fn determine_pseudo_phase(lg_k: u8, num_coupons: u32) -> u8 {
@@ -705,18 +775,18 @@ fn read_unary(
     next_word_index: &mut usize,
     bitbuf: &mut u64,
     bufbits: &mut u8,
-) -> u64 {
+) -> Result<u64, Error> {
     let mut subtotal = 0u64;
     loop {
         // ensure 8 bits in bit buffer
-        maybe_fill_bitbuf(bitbuf, bufbits, compressed_words, next_word_index, 8);
+        maybe_fill_bitbuf(bitbuf, bufbits, compressed_words, next_word_index, 8)?;
         // These 8 bits include either all or part of the Unary codeword
         let peek8 = *bitbuf & 0xff;
         let trailing_zeros = peek8.trailing_zeros() as u8;
         if trailing_zeros < 8 {
             *bufbits -= 1 + trailing_zeros;
             *bitbuf >>= 1 + trailing_zeros;
-            return subtotal + trailing_zeros as u64;
+            return Ok(subtotal + trailing_zeros as u64);
         }
         // The codeword was partial, so read some more
         subtotal += 8;
@@ -745,12 +815,16 @@ fn maybe_fill_bitbuf(
     words: &[u32],
     word_index: &mut usize,
     minbits: u8,
-) {
+) -> Result<(), Error> {
     if *bufbits < minbits {
-        *bitbuf |= (words[*word_index] as u64) << *bufbits;
+        let Some(word) = words.get(*word_index) else {
+            return Err(Error::deserial("compressed stream is too short"));
+        };
+        *bitbuf |= (*word as u64) << *bufbits;
         *word_index += 1;
         *bufbits += 32;
     }
+    Ok(())
 }
 
 // Explanation of padding: we write
